@@ -1,9 +1,9 @@
 """Write the signatures / collections of a case to files (run under /venv/bin/python with the package
 built from /repo's working tree on PYTHONPATH).  usage: cli_files.py <spec.json>
 spec = {"dir": ..., "sigs": {slot: {"name", "scaled", "track", "pairs": [[h, a], ...]}},
-        "files": [{"path": ..., "kind": "sig|zip|dir|sbt|lca|sql|pl|mf|multi", "sigs": [slots]}]}
+        "files": [{"path": ..., "kind": "sig|zip|zipnm|dir|sbt|lca|sql|pl|mf|multi", "sigs": [slots]}]}
 
-kinds: sig = one JSON file; zip = zip collection; dir = a directory of one-signature files; sbt / lca / sql =
+kinds: sig = one JSON file; zip = zip collection; zipnm = a hand-made zip of signature files without a manifest; dir = a directory of one-signature files; sbt / lca / sql =
 indexed databases; pl = a pathlist naming a zip collection and a JSON file (a MultiIndex of collections of different kinds);
 mf = a standalone manifest CSV over one-signature files; multi = a directory tree of multi-signature JSON files.
 Also imported by cli_server.py (the in-process command-line runner of the quick tiers)."""
@@ -46,6 +46,16 @@ def _one_per_file(d, sigs):
 def write_file(p, kind, sigs):
     if kind in ("sig", "zip"):
         _save(p, sigs)
+    elif kind == "zipnm":
+        # a zip archive of signature files made by hand: no SOURMASH-MANIFEST.csv inside
+        import io
+        import zipfile
+        from sourmash import save_signatures_to_json
+        with zipfile.ZipFile(p, "w") as z:
+            for k, x in enumerate(sigs):
+                fp = io.StringIO()
+                save_signatures_to_json([x], fp)
+                z.writestr(f"sigs/{k:03d}.sig", fp.getvalue())
     elif kind == "dir":
         _one_per_file(p, sigs)
     elif kind == "multi":
@@ -95,10 +105,23 @@ def write_file(p, kind, sigs):
         raise ValueError("unknown kind " + kind)
 
 
+def distractors(tag):
+    """signatures a command run for a k=21 scaled query must ignore: another ksize, a num sketch"""
+    a = MinHash(0, 31, scaled=1, seed=42)
+    a.add_many([11, 22, 33, 44])
+    b = MinHash(5, 21, seed=42)
+    b.add_many([1, 2, 3, 4, 5, 6, 7])
+    return [SourmashSignature(a, name=f"distractor-k31-{tag}"), SourmashSignature(b, name=f"distractor-num-{tag}")]
+
+
 def write_spec(spec):
     S = make_sigs(spec)
-    for f in spec["files"]:
-        write_file(os.path.join(spec["dir"], f["path"]), f["kind"], [S[int(x)] for x in f["sigs"]])
+    for n, f in enumerate(spec["files"]):
+        sigs = [S[int(x)] for x in f["sigs"]]
+        if spec.get("distract") and f["kind"] in ("sig", "zip", "zipnm", "dir", "multi", "pl", "mf"):
+            d = distractors(n)
+            sigs = ([d[0]] + sigs + [d[1]]) if f["path"] != "query.sig" else (sigs + [d[0]])
+        write_file(os.path.join(spec["dir"], f["path"]), f["kind"], sigs)
 
 
 def main():
